@@ -331,6 +331,12 @@ class CallMixin:
             return self.apply_contract(s, c, func, args, kwargs, node)
         if qn in self.inline_ok or self.spec_mode or func.__module__.startswith("contracts"):
             return self.inline_function(s, func, args, kwargs, node)
+        # a helper without a contract that lives in the same module as the function under verification is treated as part
+        # of its body (a refactoring that extracts a private helper must not turn the proof into a checker error)
+        if self.current is not None and func.__module__ == self.current.qualname.rsplit(".", 2)[0] or \
+                (self.current is not None and self.current.qualname.startswith(func.__module__ + ".")):
+            self.stats["auto_inlined_helpers"] += 1
+            return self.inline_function(s, func, args, kwargs, node)
         raise Unsupported(f"call of {qn}: no contract, model or inline permission")
 
     # ---- inlining -----------------------------------------------------------------------------
